@@ -21,7 +21,9 @@ import time
 VERIF = os.path.dirname(os.path.dirname(os.path.abspath(__file__)))
 REPO = os.environ.get("SPOWTD_REPO", "/repo")
 LEAN_DIR = os.path.join(VERIF, "lean")
-EVIDENCE_DIR = os.path.join(VERIF, "evidence")
+# runs against a scratch worktree (seeded-change experiments) must not overwrite the evidence of /repo itself
+_SCRATCH = os.path.abspath(REPO) != "/repo"
+EVIDENCE_DIR = os.path.join(VERIF, "evidence") if not _SCRATCH else os.path.join(tempfile.gettempdir(), "spowtd-verif-evidence-scratch")
 REPLAY_DIR = os.path.join(VERIF, "replays")
 ALLOWED_AXIOMS = {"propext", "Classical.choice", "Quot.sound"}
 FORBIDDEN = re.compile(
@@ -343,8 +345,8 @@ class Context:
     def finalize(self, aud):
         """Turn unexplained correspondence / proof breaks into `no-failing-input-found` reports."""
         found = [v for v in self.violations if v is not None and v.found]
-        if found or self.known_hits:
-            return
+        if found:
+            return        # (a listed known finding explains nothing else: it does not silence an unrelated break)
         if self.breaks:
             ob, detail = self.breaks[0]
             d = dict(detail)
@@ -450,3 +452,26 @@ def write_evidence(ctx, aud, theorems, trusted_base, assumptions, rule, extra=No
     with open(os.path.join(EVIDENCE_DIR, "%s.json" % ctx.prop), "w") as fh:
         json.dump(doc, fh, indent=1, default=str)
     return doc
+
+
+import contextlib as _contextlib
+
+
+@_contextlib.contextmanager
+def session_logging(rng, p=0.25):
+    """The library as used from a process that logs (what `-vv`/`-vvv` configure, or a notebook with
+    logging.basicConfig(level=DEBUG)): for a fraction `p` of the cases the root logger is at INFO or DEBUG
+    while the real code runs.  Results must not depend on it."""
+    import logging
+    level = None
+    if rng.random() < p:
+        level = rng.choice([logging.INFO, logging.DEBUG])
+        logging.disable(logging.NOTSET)
+        if not logging.root.handlers:
+            logging.root.addHandler(logging.NullHandler())
+        logging.root.setLevel(level)
+    try:
+        yield level
+    finally:
+        if level is not None:
+            logging.root.setLevel(logging.WARNING)
